@@ -6,6 +6,7 @@ import CprocVerif.Lemmas.Lower2Switch
 import CprocVerif.Lemmas.Lower2IncDec
 import CprocVerif.Lemmas.Lower2Func
 import CprocVerif.Lemmas.Lower2Call
+import CprocVerif.Lemmas.Lower2Arr
 
 set_option linter.unusedSimpArgs false
 
@@ -17,6 +18,10 @@ open CprocVerif.LowerArith CprocVerif.LowerMach CprocVerif.LowerMem
     (`T.P = []`: no call has a meaning) or when there is room for `fuel` nested activations. -/
 def AllStmt (fuel : Nat) : Prop := ∀ T : Stat, (T.P = [] ∨ fuel ≤ T.d) → SimStmt T fuel
 
+theorem wt_arrsOK {g : CSem2.Func} (h : CSem2.WT g) : arrsOK g.cnts g.body = true := by
+  simp only [CSem2.WT, CSem2.Func.wt, Bool.and_eq_true] at h
+  exact h.1.1.2
+
 /-- the activations of the functions of the program, from the simulation of their statements -/
 theorem funcSim_of_all (T : Stat) (n : Nat) (hd : 0 < T.d) (hn : n + 1 ≤ T.d) (hall : AllStmt n) :
     FuncSim T n := by
@@ -25,7 +30,7 @@ theorem funcSim_of_all (T : Stat) (n : Nat) (hd : 0 < T.d) (hn : n + 1 ≤ T.d) 
   have hroom' : Room T.K (T.d - 1 + 1) M := by
     have : T.d - 1 + 1 = T.d := by omega
     rw [this]; exact hroom
-  exact sim_func T.S.cs sid g ρ v hwt henv T.P T.S.p T.S.ext T.K (T.d - 1) M T.hfuncs T.hP (frag_of_callsOK _ _ hcalls) hK hmem
+  exact sim_func T.S.cs sid g ρ v hwt henv T.P T.S.p T.S.ext T.K (T.d - 1) M T.hfuncs T.hP (frag_of_callsOK _ _ _ hcalls (wt_arrsOK hwt)) hK hmem
     hroom' htop rest tr env0 hargs n (fun T' _ hd' => hall T' (Or.inr (by omega))) hex
 
 /-- Every execution of a statement is simulated. -/
@@ -66,6 +71,9 @@ theorem sim_all : ∀ fuel, AllStmt fuel := by
     | case_ u => exact sim_label T n (.case_ u) (Or.inl ⟨u, rfl⟩) hex hp hits inv
     | default_ => exact sim_label T n .default_ (Or.inr rfl) hex hp hits inv
     | switch_ e b => exact sim_switch T n ihle e b hex hfr hwt hp hext hits hlp inv
+    | adecl i t cnt xb => exact sim_adecl T n i t cnt xb hex hp inv
+    | aload d dt a t cnt xb x => exact sim_aload T n d dt a t cnt xb x hex hfr hwt hp hext hits inv
+    | astore a t cnt xb x v => exact sim_astore T n a t cnt xb x v hex hfr hwt hp hext hits inv
     | call dst rt fn args =>
       rcases hT with hP | hd
       · simp only [exec, hP, lookup, List.find?_nil] at hex
